@@ -441,6 +441,15 @@ def seeded_variants(prop):
     return out
 
 
+def benign_variants():
+    """independently written behaviour-preserving changes (/verif/benign/<name>/patch.diff): no rule of any property may
+    report one of them"""
+    out = []
+    for pfile in sorted(glob.glob(os.path.join(VERIF, "benign", "*", "patch.diff"))):
+        out.append((os.path.basename(os.path.dirname(pfile)), pfile))
+    return out
+
+
 def _key_set(ctx):
     return {f.key() for f in ctx.findings}
 
@@ -487,7 +496,7 @@ def _analyse_variant(args):
         if len(ctx.unknowns) > base_unknown:
             return {"name": name, "kind": kind, "status": "unknown", "detail": "; ".join("%s %s" % u for u in ctx.unknowns[:2])}
         return {"name": name, "kind": kind, "status": "missed", "detail": ""}
-    # twin / deep-twin
+    # twin / deep-twin / benign
     if new:
         return {"name": name, "kind": kind, "status": "false-alarm", "detail": new[0].line()}
     if len(ctx.unknowns) > base_unknown:
@@ -518,6 +527,14 @@ def run_for_property(prop, root, base_ctx, seed=0, jobs=0):
             skipped.append("seeded/" + name)
             continue
         tasks.append((prop, root, "seeded/" + name, "seeded", ov, (), base_keys, base_unknown))
+    benign_skipped = []
+    for name, pfile in benign_variants():
+        with open(pfile) as f:
+            ov = apply_patch_text(root, f.read())
+        if ov is None:
+            benign_skipped.append(name)
+            continue
+        tasks.append((prop, root, "benign/" + name, "benign", ov, (), base_keys, base_unknown))
     if os.environ.get("VERIF_GENERIC_TWINS", "1") != "0":
         # every mutant and seeded change once more under two of the whole-tree rewrites (which two: by name and VERIF_SEED):
         # what a rule reports must not depend on how the surrounding code is spelled
@@ -551,7 +568,11 @@ def run_for_property(prop, root, base_ctx, seed=0, jobs=0):
     under = [r for r in results if r["kind"] == "mutant-under-twin"]
     # under a rewrite a rule must still report the change, or at least refuse to decide (exit 2); passing silently is a miss
     under_bad = [r for r in under if r["status"] in ("missed", "invalid")]
-    bad = [r for r in mutants if r not in detected] + [r for r in twins if r not in silent] + [r for r in deep if r not in deep_ok] + under_bad
+    benign = [r for r in results if r["kind"] == "benign"]
+    # an independently written behaviour-preserving change: VIOLATION is a false alarm; an unknown idiom (exit 2) is recorded
+    benign_bad = [r for r in benign if r["status"] not in ("silent", "unknown")]
+    bad = ([r for r in mutants if r not in detected] + [r for r in twins if r not in silent] + [r for r in deep if r not in deep_ok]
+           + under_bad + benign_bad)
     for r in bad:
         base_ctx.unknowns.append(("selftest", "%s %s: %s %s" % (r["kind"], r["name"], r["status"], r["detail"])))
     n_total = len(variants)
@@ -567,6 +588,9 @@ def run_for_property(prop, root, base_ctx, seed=0, jobs=0):
             "deep_twins_undecided": [r["name"] for r in deep if r["status"] == "unknown"],
             "mutants_under_twins_total": len(under), "mutants_under_twins_detected": len([r for r in under if r["status"] == "detected"]),
             "mutants_under_twins_undecided": [r["name"] for r in under if r["status"] == "unknown"],
+            "benign_total": len(benign), "benign_silent": len([r for r in benign if r["status"] == "silent"]),
+            "benign_undecided": [r["name"] for r in benign if r["status"] == "unknown"],
+            "benign_no_longer_apply": benign_skipped,
             "skipped_anchor_gone": skipped,
             "results": results,
         },
